@@ -396,3 +396,5 @@ _quick("C20", "C20_restructure", "LockQueue, LockCommandQueue and LockManagerQue
 _quick("C11", "C11_reentry", "a hold (Rcount 3) taken with the require-ack flag and fully acknowledged (leader flush + one follower, mode all); the same LockId locks a second level with the require-ack flag, with or without the leader's flush following: no SUCCED for the second level while no follower has acknowledged its record", ["-witness", "1"], reach=["first-level-held"])
 
 _quick("C11", "C11_update", "a hold taken with SET v1 (2 symbolic bytes) under the require-ack flag and acknowledged; an update (update-when-locked flag) carrying SET v2 and the require-ack flag goes pending; leader flush, then a negative follower acknowledgement: exactly one non-SUCCED reply and the key's value is v1 again", ["-witness", "1"], reach=["update-pending"])
+
+CHECKS["C14"]["harnesses"].append(dict(pkg="protocol", name="C14_valueframes", bound="value frames (the Data field of LOCK / UNLOCK): a key/value map of one entry (key and value 1..3 symbolic bytes, lengths independent) through NewLockCommandDataSetKV and an array of two elements (1..3 symbolic bytes each) through NewLockCommandDataSetArray read back through the result accessors GetKVValue / GetArrayValue to the same values; the frame's length prefix is its size", flags=["-witness", "1"], reach=["end"]))
